@@ -262,7 +262,9 @@ def eval_any(case, rng):
         for _ in range(rng.randrange(1, 4)):
             i = rng.randrange(len(items))
             fr = bytearray(items[i].frame)
-            fr[rng.randrange(54 if len(fr) > 60 else 14, len(fr))] ^= 1 << rng.randrange(8)
+            if not fr:
+                continue        # an empty (runt) frame has no bit to flip
+            fr[rng.randrange(54 if len(fr) > 60 else 14 if len(fr) > 14 else 0, len(fr))] ^= 1 << rng.randrange(8)
             items[i] = scene.Item(bytes(fr), conn=items[i].conn, dir=items[i].dir, seg=items[i].seg, tag=items[i].tag)
     scene.stamp(items, rng, rng.choice(scene.TS_STYLES + (["coarse", "coarse"] if not any(f.kind == "quic" for f in flows) else [])))
     lines = [l for f in flows for l in f.keylog]
@@ -294,8 +296,29 @@ def eval_any(case, rng):
         cap = ns.pcap_legacy([("pkt", it.ts, it.frame) for it in items], le=rng.random() < 0.5)
     elif rng.random() < 0.15:
         # a capture of several interfaces: an idle one of another link type (raw IP, Linux cooked, BSD null) described first, or two Ethernet interfaces with their own clocks
-        multi = rng.choice(["idle-first", "idle-first", "two-ethernet"])
-        cap = ns.pcapng_multi([("pkt", it.ts, it.frame) for it in items], [(None, None), (rng.choice([None, 9]), None)], (lambda n: 1) if multi == "idle-first" else (lambda n: n // 3),
+        multi = rng.choice(["idle-first", "idle-first", "two-ethernet", "other-link", "other-link"])
+        if multi == "other-link":
+            # the second interface is not an Ethernet device and it is *not* idle (tcpdump -i any next to eth0, a tun device, loopback on BSD): its packets are written in
+            # their own framing - raw IP, Linux cooked header, BSD null header - and TLExport, which reads every packet as Ethernet, must make nothing of them, or at least
+            # nothing malformed
+            lt = rng.choice([101, 113, 0, 276])
+            pk = []
+            for n_, it in enumerate(items):
+                fr = it.frame
+                if n_ % 2 == 1 and len(fr) >= 34 and fr[12:14] in (b"\x08\x00", b"\x86\xdd"):
+                    ip = fr[14:]
+                    if lt == 101:
+                        fr = ip
+                    elif lt == 113:
+                        fr = b"\x00\x00\x00\x01\x00\x06" + fr[6:12] + b"\x00\x00" + fr[12:14] + ip
+                    elif lt == 276:
+                        fr = fr[12:14] + b"\x00\x00" + b"\x00\x00\x00\x02" + b"\x00\x01\x00\x00\x06" + b"\x00" + fr[6:12] + b"\x00\x00" + ip
+                    else:
+                        fr = (2 if fr[12:14] == b"\x08\x00" else 30).to_bytes(4, "little") + ip
+                pk.append(("pkt", it.ts, fr))
+            cap = ns.pcapng_multi(pk, [(None, None), (rng.choice([None, 9]), None)], lambda n: n % 2, le=rng.random() < 0.8, linktypes=[1, lt], late_idb=rng.random() < 0.3)
+        else:
+          cap = ns.pcapng_multi([("pkt", it.ts, it.frame) for it in items], [(None, None), (rng.choice([None, 9]), None)], (lambda n: 1) if multi == "idle-first" else (lambda n: n // 3),
                               le=rng.random() < 0.8, linktypes=[rng.choice([101, 113, 0, 276]), 1] if multi == "idle-first" else None, late_idb=rng.random() < 0.3)
     else:
         cap = scene.capture(items, le=rng.random() < 0.8)
